@@ -257,8 +257,12 @@ CHECKS = {
         design="7/C19", technique="Coq proof (algebraic round-trip, layout lemma) + byte-level correspondence run",
         note="Bytes modelled as N < 256; only the canonical 36-character UUID text form is modelled. " + NOTE_COMMON),
     "C10": dict(
-        text="This revision covers the INLINE client (Set, SetReader, Create+Write*+Close reaching usecase/store.Set); the gRPC "
-             "abort paths (cancelled uploads, stream reader/writer errors) are added later and are not claimed yet. Theorems "
+        text="Covers the inline client (Set, SetReader, Create+Write*+Close reaching usecase/store.Set) and the receiving end of a gRPC "
+             "upload (Stream.v: streamreader.Read, the reader the server hands to store.Set; composed with the write path: "
+             "C10_grpc_abort_never_stored - a stream aborted after any chunks, read with any buffer length, is never stored for any fault plan "
+             "and candidate order; C10_grpc_upload_exact - a stored upload holds exactly the chunks in order; C10_grpc_reader_terminates; "
+             "C10_grpc_reads_prefix; C10_grpc_abort_refuted_orig = finding D4; tie: 400/6000 scripted streams x Read-length sequences through the "
+             "real streamreader vs the extracted model, property oracle on the answers, 40 re-evaluated by vm_compute). Theorems "
              "(Coq, for every source, every split of it into Read results, every per-root fault plan - ENOSPC at any offset, "
              "all-or-nothing or after a partial write of any length - every reported free space and every candidate order of the "
              "shuffle, every io.Copy buffer size) about an executable model of the retry loop of store.Set and of content.Store "
@@ -285,7 +289,8 @@ CHECKS = {
                                   "fault-injection correspondence run",
         note="File system faults are injected (a faulted Write stores min(capacity-offset, keep) bytes and returns ENOSPC), not "
              "produced by a full disk; Badger record writes are assumed to succeed; Create with several Writes is only run "
-             "without write faults (timing-dependent split; the theorems hold for every split). Orphan partial files left in "
+             "without write faults (timing-dependent split; the theorems hold for every split). gRPC's Recv is assumed to keep "
+             "answering its ending (io.EOF or the abort error) once it has reported it; the client's sending side is covered by C12 (stream writer) and C11. Orphan partial files left in "
              "roots that ran out are never removed by fs_db (recorded observation, invisible to readers). " + NOTE_COMMON),
     "C11": dict(
         text="Covers the error-class / isolation-level mapping (theorems) and whole client histories through both clients "
